@@ -2093,18 +2093,16 @@ class DiskObjectStore(PackBasedObjectStore):
         Raises:
           KeyError: if the object is not found
         """
-        # First check if it's a loose object
+        # The object is as young as its newest copy (the same object may be an
+        # old loose file, sit in an old pack and in one that has just arrived)
+        newest: float | None = None
         if self.contains_loose(sha):
             path = self._get_shafile_path(sha)
             try:
-                return os.path.getmtime(path)
+                newest = os.path.getmtime(path)
             except FileNotFoundError:
                 pass
 
-        # Check if it's in a pack file; the object is as young as its
-        # newest copy (the same object may sit in an old pack and in one that
-        # has just arrived)
-        newest: float | None = None
         for pack in self.packs:
             try:
                 if sha in pack:
